@@ -107,7 +107,14 @@ def run_check(pid, tier, seed, replay=None):
             with contextlib.redirect_stdout(io.StringIO()):     # the implementation prints warnings; keep our stdout for verdict lines
                 mod.correspondence(ctx)
         except ModelError as e:
-            tool_failure = 'model driver failed: ' + str(e)[-400:]
+            if 'bad-op' in str(e):
+                # the regenerated model no longer accepts the protocol line of this check: the signature of a generated function changed with the
+                # source. That is a broken tie (the correspondence cannot be established), not a failure of the tooling.
+                corr_ok = False
+                broken.append({'tie': 'X', 'what': 'the regenerated model rejects the protocol line of the correspondence (signature of a modelled function changed)',
+                               'detail': str(e)[-400:]})
+            else:
+                tool_failure = 'model driver failed: ' + str(e)[-400:]
         except Exception:
             ctx.mismatch('correspondence harness raised', None, None, traceback.format_exc()[-800:])
         if ctx.mismatches:
@@ -197,6 +204,7 @@ def run_check(pid, tier, seed, replay=None):
         'clauses_proved': getattr(mod, 'PROVED', []),
         'clauses_hypothesis': getattr(mod, 'HYPOTHESES', []),
         'clauses_monitored_only': getattr(mod, 'MONITORED', []),
+        'known_findings_reported': sorted(seen_known),
     }
     if discharged == 0:
         # schema: a proof-level coverage block needs discharged >= 1; report the broken state with the generic keys instead
